@@ -119,3 +119,16 @@ def dekker_product_fix_overflow(ctx, x, y, xh, xl, yh, yl):
     h = ctx.select(overflow, x * y, h)
     l = ctx.select(overflow, 0, l)
     return h, l
+
+
+def dekker_product_fix_overflow_alt(ctx, x, y, xh, xl, yh, yl):
+    # same with the two cross terms accumulated in the other order (the exactness proof is symmetric in x and y)
+    h = x * y
+    t1 = (-h) + xh * yh
+    t2 = t1 + xl * yh
+    t3 = t2 + xh * yl
+    l = t3 + xl * yl
+    overflow = abs(xh * yh) > ctx.constant("largest", x)
+    h = ctx.select(overflow, x * y, h)
+    l = ctx.select(overflow, 0, l)
+    return h, l
